@@ -80,10 +80,19 @@ class BaseCache(Cache):
             'start_timestamp': start_timestamp,
             'duration_seconds': duration_seconds,
         }
-        metadata_file = storage.file_handle(task.cache_key, self.METADATA_FILENAME, mode='w')
-        with metadata_file:
-            json.dump(metadata, metadata_file, indent=2)
-        self.save_result(storage, task, task_result.value)
+        try:
+            metadata_file = storage.file_handle(task.cache_key, self.METADATA_FILENAME, mode='w')
+            with metadata_file:
+                json.dump(metadata, metadata_file, indent=2)
+            self.save_result(storage, task, task_result.value)
+        except BaseException:
+            # Do not leave behind a partially written entry, which
+            # would be reported as cached but could not be loaded.
+            try:
+                storage.delete(task.cache_key)
+            except Exception:
+                pass
+            raise
 
     def load_metadata(self, storage: Storage, task_type: Type[Task], key: str) -> dict[str, Any]:
         if not key.startswith(f'{self.KEY_PREFIX}{task_type.__qualname__}'):
